@@ -170,9 +170,35 @@ pub struct VxNodeOn { pub wallet: VxWallet, pub channels: VxChannelsRO, pub fee_
 #[verifier::external_body] pub struct VxNodeRest { _p: u8 }
 #[verifier::external_body] pub struct VxChannelsRO { _p: u8 }
 #[verifier::external_body] pub struct SecretKeyStack { _p: u8 }
-// the ready channel (if any) whose funding outpoint is `o`: find_channel_with_funding_outpoint (node.rs, a loop over
-// the channel map; not under contract)
+// the ready channel (if any) whose funding outpoint is `o`, as find_channel_with_funding_outpoint (below) returns it
 pub uninterp spec fn funded_channel(c: VxChannelsRO, o: OutPoint) -> Option<VxSlot>;
+impl VxChannelsRO {
+    // the slots of the map in iteration order (`channels_lock.iter()`, keys dropped)
+    pub uninterp spec fn slots(&self) -> Seq<VxSlot>;
+    #[verifier::external_body]
+    pub fn vx_slots(&self) -> (r: Vec<VxSlot>) ensures r@ == self.slots() { unimplemented!() }
+}
+impl Clone for VxSlot { #[verifier::external_body] fn clone(&self) -> (r: Self) ensures r == *self { unimplemented!() } }
+pub open spec fn slot_funds(s: VxSlot, o: OutPoint) -> bool { s@ is Ready && s@->Ready_0.setup.funding_outpoint == o }
+
+//@fn vls-core/src/node.rs :: - :: find_channel_with_funding_outpoint props=C08
+    ensures
+        // found: a READY channel of the map with exactly this funding outpoint (the first one); stubs are ignored
+        r.is_some() ==> exists|i: int| 0 <= i < channels_lock.slots().len() && r->Some_0 == #[trigger] channels_lock.slots()[i]
+            && slot_funds(channels_lock.slots()[i], *outpoint),                                          //[C08.lookup.found-is-ready-and-funded-here]
+        r.is_none() ==> forall|i: int| 0 <= i < channels_lock.slots().len() ==> !slot_funds(#[trigger] channels_lock.slots()[i], *outpoint),   //[C08.lookup.none-means-none]
+//@sigsub /&MutexGuard<OrderedMap<ChannelId, Arc<Mutex<ChannelSlot>>>>/ => &VxChannelsRO
+//@sigsub /Option<Arc<Mutex<ChannelSlot>>>/ => Option<VxSlot>
+//@sub /for \(_, slot_arc\) in channels_lock\.iter\(\) \{/ => let vx_sl = channels_lock.vx_slots(); for slot_arc in it: vx_sl.iter() {
+//@sub /let slot = slot_arc\.lock\(\)\.vx_expect\(\);/ => let slot = slot_arc.vx_read();
+//@sub /match &\*slot \{/ => match slot {
+//@sub /Arc::clone\(slot_arc\)/ => slot_arc.clone()
+//@loop 1
+        invariant
+            vx_sl@ == channels_lock.slots(),
+            forall|i: int| 0 <= i < it.index@ ==> !slot_funds(#[trigger] channels_lock.slots()[i], *outpoint),
+//@end
+
 pub uninterp spec fn txid_of(tx: Transaction) -> Txid;
 pub open spec fn funded_slots(c: VxChannelsRO, tx: Transaction) -> Seq<Option<VxSlot>> {
     Seq::new(tx.output@.len(), |k: int| funded_channel(c, OutPoint { txid: txid_of(tx), vout: k as u32 }))
